@@ -12,6 +12,7 @@ is exact; ties on time and on (time, priority) are frequent by construction.
 DELAYS = [0, 0, 0.5, 1, 1, 2, 3, 0.25, 4, 1.5]
 INT_DELAYS = [0, 0, 1, 1, 2, 3, 4, 1, 2, 5]
 PRIOS = [1, 3, 5, 5, 5, 7, 10]
+WIDE_PRIOS = [0, 0, -3, 11, 11, 12, 100, -1]
 EXCS = ["RuntimeError", "ValueError", "ZeroDivisionError", "KeyError",
         "DSOLError", "AssertionError", "SystemExit", "KeyboardInterrupt", "HandlerGaveUp"]
 BAD_KINDS = ["past_abs", "neg_rel", "nan_abs", "nan_rel", "str_abs",
@@ -135,6 +136,17 @@ def gen_program(rng, clock=None, n_events=None, p_cancel=0.12, p_bad=0.0,
         prog["custom_events"] = rng.choice([True, "subclass", "subclass", "both"])
     if clock == "float" and rng.random() < 0.15:
         prog["int_literals"] = True        # whole numbers are passed as Python ints
+    if rng.random() < 0.12:
+        # "typically, priorities are numbered 1 through 10": any int is legal
+        lists = [roots, initial] + list(events.values())
+        for al in lists:
+            for a in al:
+                if a[0] in ("abs", "rel", "pre") and rng.random() < 0.35:
+                    a[3] = rng.choice(WIDE_PRIOS)
+                elif a[0] == "now" and rng.random() < 0.35:
+                    a[2] = rng.choice(WIDE_PRIOS)
+    if rng.random() < 0.12:
+        prog["kwcalls"] = True          # documented parameter names passed by keyword
     if rng.random() < 0.12:
         add_tc_listener(rng, prog)
     if rng.random() < 0.15:
